@@ -39,6 +39,17 @@ struct Gamma {
   Rng &rng;
   long checks = 0, nontop_checks = 0, refused_exports = 0;
   Gamma(Built &b, Rng &r) : B(b), p(*b.prog), rng(r) {}
+  // Exports of values that live as long as this object (the cached invariants of a case) are computed
+  // once: crab's constraint systems de-duplicate quadratically, which dominates the run time for
+  // relational values over many array cells.  The caller sets stable_next before member().
+  using dsys_t = crab::domains::abstract_domain_api<z_abs_t>::disjunctive_linear_constraint_system_t;
+  struct Exports {
+    bool have_sys = false, have_dsys = false;
+    z_lin_cst_sys_t sys;
+    dsys_t dsys;
+  };
+  std::map<const z_abs_t *, Exports> export_cache;
+  bool stable_next = false;
 
   // evaluates a crab constraint on s; returns false if it mentions a variable the state does not have (ghosts)
   bool eval(const z_lin_cst_t &c, const CState &s, bool &out) const {
@@ -78,8 +89,31 @@ struct Gamma {
       }
     }
     if (level >= 1) {
-      try {
-        auto sys = A.to_linear_constraint_system();
+      Exports local, *ex = &local;
+      bool fill = true;
+      if (stable_next) {
+        auto ins = export_cache.insert({&A, Exports()});
+        ex = &ins.first->second;
+        fill = ins.second;
+      }
+      stable_next = false;
+      if (fill) {
+        try {
+          ex->sys = A.to_linear_constraint_system();
+          ex->have_sys = true;
+        } catch (crab::verif_error &e) {
+          refused_exports++;
+        }
+        try {
+          ex->dsys = A.to_disjunctive_linear_constraint_system();
+          ex->have_dsys = true;
+        } catch (crab::verif_error &e) {
+          // e.g. "TODO: to_disjunctive_linear_constraint_system in dis_intervals": a refusal, the item is skipped
+          refused_exports++;
+        }
+      }
+      if (ex->have_sys) {
+        auto &sys = ex->sys;
         for (auto &c : sys) {
           bool t;
           if (eval(c, s, t) && !t) {
@@ -87,18 +121,9 @@ struct Gamma {
             return G_LINCST;
           }
         }
-      } catch (crab::verif_error &e) {
-        refused_exports++;
       }
-      crab::domains::abstract_domain_api<z_abs_t>::disjunctive_linear_constraint_system_t dsys;
-      bool have_dsys = true;
-      try {
-        dsys = A.to_disjunctive_linear_constraint_system();
-      } catch (crab::verif_error &e) {
-        // e.g. "TODO: to_disjunctive_linear_constraint_system in dis_intervals": a refusal, the item is skipped
-        refused_exports++;
-        have_dsys = false;
-      }
+      dsys_t &dsys = ex->dsys;
+      bool have_dsys = ex->have_dsys;
       if (have_dsys && dsys.is_false()) {
         why = "disjunctive export is false";
         return G_DISJ;
